@@ -24,6 +24,7 @@ from typing import Any, ForwardRef, Optional, Tuple, Type, Union
 from uuid import UUID
 from zoneinfo import ZoneInfo
 
+import typing_extensions
 from typing_extensions import TypeAlias
 
 from mashumaro.config import BaseConfig
@@ -37,6 +38,7 @@ from mashumaro.core.meta.helpers import (
     get_literal_values,
     get_type_origin,
     is_annotated,
+    is_final,
     is_generic,
     is_literal,
     is_named_tuple,
@@ -44,6 +46,7 @@ from mashumaro.core.meta.helpers import (
     is_not_required,
     is_readonly,
     is_required,
+    is_self,
     is_special_typing_primitive,
     is_type_alias_type,
     is_type_var,
@@ -479,8 +482,12 @@ def on_special_typing_primitive(
         )
     elif is_literal(instance.type):
         return on_literal(instance, ctx)
-    # elif is_self(instance.type):
-    #     raise NotImplementedError
+    elif is_self(instance.type) and instance.owner_class is not None:
+        return get_schema(instance.derive(type=instance.owner_class), ctx)
+    elif is_final(instance.type):
+        return get_schema(instance.derive(type=args[0]), ctx)
+    elif instance.type is typing_extensions.LiteralString:
+        return get_schema(instance.derive(type=str), ctx)
     elif is_required(instance.type) or is_not_required(instance.type):
         return get_schema(instance.derive(type=args[0]), ctx)
     elif is_unpack(instance.type):
